@@ -883,6 +883,7 @@ def gen_susp(rng, full=False, share=0.04):
             over = rng.choice([None] + list(range(depth - 1)))
             frames.append({"over": over, "under": None, "items": _recs(rng, tagc, full)})
         n = len(frames)
+        first_guess = rng.randrange(n) if rng.random() < 0.2 else 0
         for j in range(n):
             kids = [k for k in range(n) if frames[k]["over"] == j]
             if len(kids) >= 2 and rng.random() < 0.3:
@@ -898,6 +899,23 @@ def gen_susp(rng, full=False, share=0.04):
                     a = alloc(0)
                     if a is not None:
                         its.append({"t": "aux", "aux": a, "needs": nds})
+                        if nds[0]["op"] == ">=" and rng.random() < 0.5:
+                            # a transition that becomes possible a few ticks after the auxiliary starts, evaluated before
+                            # the clause (same frame, placed before it below; or a frame above): it fires while the outline
+                            # is cut — onto this frame, the first (usually active) frame, an ancestor or anywhere
+                            chain, k = [j], f.get("over")
+                            while k is not None:
+                                chain.append(k)
+                                k = frames[k].get("over")
+                            far = rng.choice([j, j, first_guess, chain[-1], rng.choice(chain), rng.randrange(n)])
+                            go = {"t": "go", "far": far,
+                                  "needs": [{"k": "cd", "sh": 0, "op": ">=", "v": nds[0]["v"] + rng.choice([1, 2, 2, 3])}]}
+                            where = rng.choice(chain)
+                            if where == j:
+                                go["_before"] = a
+                                its.append(go)
+                            else:
+                                frames[where]["items"].append(go)
             if rng.random() < 0.15:
                 a = alloc(0)
                 if a is not None:
@@ -920,8 +938,13 @@ def gen_susp(rng, full=False, share=0.04):
                 its.append({"t": "act", "ctx": rng.choice(["enter", "recur", "exit", "renter", "rexit"]),
                             "act": {"k": "inc", "dst": rng.choice([1, 2]), "v": 1}})
             rng.shuffle(its)
+            for it in [it for it in its if "_before" in it]:       # keep the planned order: transition, then its clause
+                a = it.pop("_before")
+                its.remove(it)
+                at = min(q for q, o in enumerate(its) if o["t"] == "aux" and o["aux"] == a and o["needs"])
+                its.insert(at, it)
         framers[m] = {"sched": "active" if rng.random() < 0.9 else "inactive",
-                      "first": rng.randrange(n) if rng.random() < 0.2 else None, "frames": frames}
+                      "first": first_guess if first_guess else None, "frames": frames}
     return permute_decl(rng, add_markers(rng, {"ticks": rng.choice([6, 8, 10, 12, 14]), "period": rng.choice([8, 8, 4, 1]),
                                                "shares": [0, rng.randrange(3), rng.randrange(3)], "framers": framers},
                                          0.08, skip=(0,)), skip=(0,))
@@ -1075,6 +1098,14 @@ def gen_guards(rng):
                     its.append({"t": "aux", "aux": a, "needs": []})
                     if shared is None:
                         shared = a
+                    if rng.random() < 0.4:
+                        # the frame is entered again (forced re-entry onto itself or an ancestor) at a chosen tick while
+                        # its auxiliary may still run; the auxiliary's first frame is guarded by the flag the clock flips
+                        af = framers[a]["frames"][0]
+                        if not any(it["t"] == "let" for it in af["items"]):
+                            af["items"].append({"t": "let", "needs": [{"k": "cd", "sh": 1, "op": "==", "v": rng.choice(v1_at)}]})
+                        its.append({"t": "go", "far": rng.choice(["me", "me", f["over"] if f.get("over") is not None else "me"]),
+                                    "needs": [{"k": "cd", "sh": 0, "op": rng.choice([">=", "=="]), "v": rng.randrange(1, 8)}]})
             elif shared is not None and rng.random() < 0.35:
                 its.append({"t": "aux", "aux": shared, "needs": []})       # original aux reachable from two frames
             elif rng.random() < 0.15:
